@@ -1,9 +1,9 @@
 CONSTANTS
  SrcArrs = {1,2,9,11}
  SensArrs = {1,2,3,4,5,6,7,8,9,10,11,12,13,14,15,16,17}
- PPs = {2, 4, 5}
+ PPs = {2, 5}
  Fields = {"B", "H"}
- Aggs = {"none", "sum", "mean", "min", "max", "median", "ptp", "var"}
+ Aggs = {"none", "sum", "mean", "min", "median", "var"}
  Flags = {0, 3}
 SPECIFICATION Spec
 INVARIANT Defined
